@@ -122,7 +122,7 @@ NoKeepLosesOnlyAdded ==
   (c.k = "evo" /\ Writable(STy(Fam.n), c.v)) =>
      LET r == DecStruct(Fam.n, Wire2NoKeep) IN
      ~r.err /\ (Fam.host = Fam.n =>
-                  \A nm \in DOMAIN r.v.s : nm # Fam.fname =>
+                  \A nm \in {Fields(Fam.o)[i].name : i \in FieldIdx(Fam.o)} :   \* every field the old schema has
                       Abs(STy(Fam.n), r.v).s[nm] = Abs(STy(Fam.n), Norm(STy(Fam.n), c.v, FALSE)).s[nm])
 
 EvoEmit ==
